@@ -29,19 +29,35 @@ def gen_expr(rng, ops, depth):
     return gen_expr(rng, ops, depth - 1) + [rng.choice(ops)] + gen_expr(rng, ops, depth - 1)
 
 
-def table_text(table, order, dynamic=False, static=True):
-    """table: {op: (prio, assoc)}; order: list of alternatives"""
+def rule_meta(table, order):
+    """the (assoc, prio) written at RULE level in the rule-level variant: those of the first operator alternative"""
+    first = next(a for a in order if a in table)
+    return table[first][1], table[first][0]
+
+
+def table_text(table, order, dynamic=False, static=True, rulelevel=False):
+    """table: {op: (prio, assoc)}; order: list of alternatives.  rulelevel: the marks of the first operator are written once at the rule
+    (`E {left, 5}: ...`) and inherited by every alternative that does not override them (docs/grammar_language.md, rule meta-data)."""
     alts = []
+    rm = rule_meta(table, order) if rulelevel and static else None
     for a in order:
         if a in table:
             pr, assoc = table[a]
-            meta = (["%s" % assoc, "%d" % pr] if static else []) + (["dynamic"] if dynamic else [])
+            if rm is None:
+                marks = ["%s" % assoc, "%d" % pr]
+            elif (assoc, pr) == rm:
+                marks = []
+            elif assoc == rm[0]:
+                marks = ["%d" % pr]
+            else:
+                marks = ["%s" % assoc, "%d" % pr]
+            meta = (marks if static else []) + (["dynamic"] if dynamic else [])
             alts.append('E "%s" E%s' % (a, (" {%s}" % ", ".join(meta)) if meta else ""))
         elif a == "paren":
             alts.append('"(" E ")"')
         else:
             alts.append('"n"')
-    return "E: " + " | ".join(alts) + ";\n"
+    return "E%s: " % (" {%s, %d}" % rm if rm else "") + " | ".join(alts) + ";\n"
 
 
 def strat_text(table, marked):
@@ -94,8 +110,9 @@ def _tables(tier, seed):
         order = list(ops) + ["paren", "n"]
         r.shuffle(order)
         out.append({"table": table, "order": order, "origin": "det" if i % 2 == 0 else "rand"})
-    for j in out:
+    for i, j in enumerate(out):
         j["nexpr"], j["maxtok"] = p["nexpr"], p["maxtok"]
+        j["rulelevel"] = i % 3 == 1
     return out
 
 
@@ -155,7 +172,7 @@ def worker(job):
     from . import real
 
     table, order = job["table"], job["order"]
-    text = table_text(table, order)
+    text = table_text(table, order, rulelevel=job.get("rulelevel", False))
     name = text.strip()
     case = {"name": name, "gtext": text, "origin": job["origin"], "ops": {o: {"prio": p, "assoc": a} for o, (p, a) in table.items()},
             "built": False, "strat": True, "filter": True, "exprs": [], "build_err": ""}
